@@ -32,6 +32,10 @@ CHECKS = {
             "DESIGN.md §3 C08",
             "For scheme x (E,B) x parity x every L <= 3EB+2 x interleave 1..3 x cenc x transfer count 1..3 x carousel, and for the removal of the object after every packet index with and without immediate stop, the real Sender is drained and every complete transfer (delimited by Subscriber events) is checked symbol by symbol against the RFC slices of the transfer-encoded object; B only on the final packet / the one packet after a forced stop / the lone packet of an empty object; A only on read_close_session.",
             "Trusted: rfc.rs decode and the 128-bit partition reference; transfers cut by a forced stop are exempt from completeness as the property states."),
+    "C04": ("exploration", "exhaustive finite families of datagram histories (depth <= 3 plus in-context substitutions) on the real receiver under panic / hang / heap / usability oracles", "gridx",
+            "DESIGN.md §3 C04",
+            "All byte strings of length 0..3; every packet of a corpus of valid sessions (all schemes, signalling modes, cenc, empty object, close session) x every header byte x substitutions (all 255 in the thorough tier) and every truncation, delivered in context; products of boundary values of every EXT_FTI field x payload-id field x payload length per scheme and of version/flags/C/S/O/H/HDR_LEN/HEL; crafted FDT instances (OTI attribute products at File and instance level, TOI/length/Expires/Content-Encoding products, every truncation of a valid instance, malformed documents). Every call must return Ok/Err (catch_unwind, overflow checks and debug assertions on), within the watchdog, under a 64 MB heap ceiling with a 64 kB cache limit, and a valid session pushed after any rejected packet must still be delivered.",
+            "Trusted: counting allocator and watchdog; the quantifier's random mutation sequences are sampling and are not used (stated in the evidence); histories longer than the corpus sessions are outside the bound."),
 }
 
 NOT_YET = {}
